@@ -18,9 +18,32 @@ from ..report import Ctx
 
 LC = "guppylang_internals.checker.linearity_checker"
 ERRORS = {"PlaceNotUsedError", "AlreadyUsedError", "ComprAlreadyUsedError"}
-# loops over maps whose keys are leaf ids already (filled leaf by leaf elsewhere)
-LEAF_KEYED_ITEMS = {"live.items()": "liveness domain: keys are leaf place ids (Scope.stats / use())",
-                    "inner_scope.used_parent.items()": "uses recorded by visit_PlaceNode, one per leaf"}
+# loops over maps whose keys are leaf ids already (filled leaf by leaf elsewhere): the use maps of a Scope -- whatever the
+# local holding the scope is called -- and a liveness domain read out of a `live_before` table
+LEAF_KEYED_FIELDS = {"used_parent": "uses recorded by visit_PlaceNode / Scope.use, one per leaf",
+                     "used_local": "uses recorded by visit_PlaceNode / Scope.use, one per leaf"}
+
+
+def _leaf_keyed_items(f: ast.AST, it: ast.expr) -> bool:
+    if not (isinstance(it, ast.Call) and isinstance(it.func, ast.Attribute) and it.func.attr == "items" and not it.args):
+        return False
+    recv = it.func.value
+    if isinstance(recv, ast.Attribute) and recv.attr in LEAF_KEYED_FIELDS:
+        return True
+    # `live = live_before[succ]` ... `for x, use_bb in live.items()` where `live_before = LivenessAnalysis(...).run(...)`: the
+    # liveness domain (keys are leaf place ids: Scope.stats / use()) -- followed through the function's single assignments
+    def from_liveness(e: ast.expr, depth: int = 0) -> bool:
+        if depth > 6:
+            return False
+        if isinstance(e, ast.Subscript):
+            return from_liveness(e.value, depth + 1)
+        if isinstance(e, ast.Name):
+            defs = [n.value for n in ast.walk(f) if isinstance(n, ast.Assign) and len(n.targets) == 1 and isinstance(n.targets[0], ast.Name) and n.targets[0].id == e.id]
+            return bool(defs) and all(from_liveness(d, depth + 1) for d in defs)
+        if isinstance(e, ast.Call):
+            return any(isinstance(x, ast.Name) and x.id == "LivenessAnalysis" for x in ast.walk(e.func))
+        return False
+    return from_liveness(recv)
 
 
 def run(ctx: Ctx, covered: set[str] = frozenset()) -> None:
@@ -57,7 +80,7 @@ def run(ctx: Ctx, covered: set[str] = frozenset()) -> None:
                 it = ast.unparse(lp.iter)
                 # `leaf_places(p)`, also wrapped: list(leaf_places(p)), sorted(leaf_places(p), key=…), reversed(…)
                 over_leaves = any(isinstance(c, ast.Call) and isinstance(c.func, ast.Name) and c.func.id == "leaf_places" for c in ast.walk(lp.iter))
-                if over_leaves or it in LEAF_KEYED_ITEMS:
+                if over_leaves or _leaf_keyed_items(f.node, lp.iter):
                     leaf_loop = lp
                     break
             key = f"{f.qualname}#{diag}-decided-per-leaf"
